@@ -860,28 +860,81 @@ func propC16(c *Ctx) {
 					}
 				}
 			}
+			// the column comes from ranging over Diff(...).Add
+			fromDiffAdd := func(root ssa.Value) bool {
+				sl, _, ok := elemOf(root)
+				if !ok {
+					return false
+				}
+				if f, base := loadedField(sl); f != nil && f.Name() == "Add" {
+					if a, isA := base.(*ssa.Alloc); isA {
+						if cv := cellValue(a); cv != nil {
+							base = cv
+						}
+					}
+					if call, k := resultOf(base); call != nil && k == 0 && staticCallee(call) == diff {
+						return true
+					}
+				}
+				if fe, ok := sl.(*ssa.Field); ok {
+					if ff, _ := fieldOf(fe); ff.Name() == "Add" {
+						if call, k := resultOf(fe.X); call != nil && k == 0 && staticCallee(call) == diff {
+							return true
+						}
+					}
+				}
+				return false
+			}
 			if s.Kind == "sprintf" && s.Stmt != nil && len(s.Stmt.Verbs) > 0 && s.Stmt.Verbs[0] == "alter" {
-				// the column comes from ranging over Diff(...).Add
 				for _, a := range s.FmtArgs {
 					root, _ := fieldChain(a)
-					if root == nil {
-						continue
+					if root != nil && fromDiffAdd(root) {
+						okAlter = true
 					}
-					if sl, _, ok := elemOf(root); ok {
-						if f, base := loadedField(sl); f != nil && f.Name() == "Add" {
-							if a, isA := base.(*ssa.Alloc); isA {
-								if cv := cellValue(a); cv != nil {
-									base = cv
+				}
+			}
+			// the statement text is put together by a helper of the table (t.addColumn(c)): its arguments are
+			// the helper's parameters, seen through the call
+			if hc, isCall := s.SQLArg.(*ssa.Call); isCall && s.Kind == "dynamic" {
+				if h := staticCallee(hc); h != nil && h.Blocks != nil && isRepoFunc(h) && len(returnsOf(h)) == 1 {
+					if sp, isSp := stripConv(returnValues(returnsOf(h)[0])[0]).(*ssa.Call); isSp && calleeName(sp) == "fmt.Sprintf" && len(sp.Call.Args) == 2 {
+						if f, isK := constString(sp.Call.Args[0]); isK {
+							if st := parseSQL(f); st != nil && len(st.Verbs) > 0 && st.Verbs[0] == "alter" {
+								fargs, _ := varargValues(sp.Call.Args[1])
+								var walk func(v ssa.Value, d int) bool
+								walk = func(v ssa.Value, d int) bool {
+									if v == nil || d > 3 {
+										return false
+									}
+									root, _ := fieldChain(stripConv(v))
+									if al, isAl := root.(*ssa.Alloc); isAl {
+										if cv := cellValue(al); cv != nil {
+											root = stripConv(cv)
+										}
+									}
+									if p, isP := root.(*ssa.Parameter); isP && p.Parent() == h {
+										for i, q := range h.Params {
+											if q == p && i < len(hc.Call.Args) {
+												r2, _ := fieldChain(stripConv(hc.Call.Args[i]))
+												if r2 != nil && fromDiffAdd(r2) {
+													return true
+												}
+											}
+										}
+									}
+									if call, isC := stripConv(v).(*ssa.Call); isC { // quote(c.Name)
+										for _, a := range call.Call.Args {
+											if walk(a, d+1) {
+												return true
+											}
+										}
+									}
+									return false
 								}
-							}
-							if call, k := resultOf(base); call != nil && k == 0 && staticCallee(call) == diff {
-								okAlter = true
-							}
-						}
-						if fe, ok := sl.(*ssa.Field); ok {
-							if ff, _ := fieldOf(fe); ff.Name() == "Add" {
-								if call, k := resultOf(fe.X); call != nil && k == 0 && staticCallee(call) == diff {
-									okAlter = true
+								for _, a := range fargs {
+									if walk(a, 0) {
+										okAlter = true
+									}
 								}
 							}
 						}
@@ -907,6 +960,63 @@ func propC16(c *Ctx) {
 		fAdd := w.Field("wpg", "DiffDetails", "Add")
 		okAdd := false
 		earlyExit := false
+		// examined: the loop around `at` (in fn) that ranges over the wanted list is left only through its own
+		// test (a `break` – "the table is already as wide as the definition" – leaves later columns unexamined)
+		examined := func(fn *ssa.Function, at ssa.Instruction) {
+			h := loopHeaderOf(at)
+			if h == nil {
+				// the element is indexed by the loop's variable but the append itself is not repeated: the
+				// loop is left right after it (at most one column is ever collected)
+				earlyExit = true
+				return
+			}
+			lp := naturalLoop(h)
+			// the outermost loop around the append that ranges over the wanted list
+			for _, b := range fn.Blocks {
+				if outer := naturalLoop(b); outer != nil && outer[h] && len(outer) > len(lp) {
+					lp, h = outer, b
+				}
+			}
+			for b := range lp {
+				if b == h {
+					continue
+				}
+				for _, sc := range b.Succs {
+					if lp[sc] {
+						continue
+					}
+					// leaving the loop from inside: only as an error return
+					isErr := false
+					if r, isRet := terminator(sc).(*ssa.Return); isRet {
+						vals := returnValues(r)
+						isErr = len(vals) > 0 && definitelyNonNilError(vals[len(vals)-1], nil)
+					}
+					if !isErr {
+						earlyExit = true
+					}
+				}
+			}
+		}
+		// appendOf: `append(_, list[i])` with i a loop index: the list appended from
+		appendOf := func(v ssa.Value) (list ssa.Value, ok bool) {
+			ap, isCall := v.(*ssa.Call)
+			if !isCall || calleeName(ap) != "builtin append" {
+				return nil, false
+			}
+			vs, _ := varargValues(ap.Call.Args[1])
+			if len(vs) != 1 {
+				return nil, false
+			}
+			s, idx, isE := elemOf(vs[0])
+			if !isE || !isInduction(idx) {
+				return nil, false
+			}
+			return stripConv(s), true
+		}
+		isWanted := func(v ssa.Value) bool {
+			p, ok := stripConv(v).(*ssa.Parameter)
+			return ok && p.Parent() == diff && p.Name() == "cols"
+		}
 		allInstrs(diff, func(in ssa.Instruction) {
 			st, ok := in.(*ssa.Store)
 			if !ok {
@@ -915,51 +1025,43 @@ func propC16(c *Ctx) {
 			if f, _ := fieldOf(st.Addr); f != fAdd {
 				return
 			}
-			ap, ok := st.Val.(*ssa.Call)
-			if !ok || calleeName(ap) != "builtin append" {
+			if list, isAp := appendOf(st.Val); isAp {
+				if isWanted(list) {
+					okAdd = true
+					examined(diff, st)
+				}
 				return
 			}
-			vs, _ := varargValues(ap.Call.Args[1])
-			if len(vs) != 1 {
+			// the list is put together by a helper (Add: without(cols, indb)): the helper appends elements of
+			// one of its parameters, and that parameter is handed the wanted list
+			hc, isCall := st.Val.(*ssa.Call)
+			if !isCall {
 				return
 			}
-			s, idx, ok := elemOf(vs[0])
-			if !ok || !isInduction(idx) {
+			h := staticCallee(hc)
+			if h == nil || h.Blocks == nil || !isRepoFunc(h) {
 				return
 			}
-			if p, ok := stripConv(s).(*ssa.Parameter); ok && p.Name() == "cols" {
-				okAdd = true
-				// the scan looks at EVERY wanted column: the loop over them is left only through its own test
-				// (a `break` – "the table is already as wide as the definition" – leaves later columns unexamined)
-				if h := loopHeaderOf(st); h != nil {
-					lp := naturalLoop(h)
-					// the outermost loop around the append that ranges over the wanted list
-					for _, b := range diff.Blocks {
-						if outer := naturalLoop(b); outer != nil && outer[h] && len(outer) > len(lp) {
-							lp, h = outer, b
-						}
-					}
-					for b := range lp {
-						if b == h {
-							continue
-						}
-						for _, sc := range b.Succs {
-							if lp[sc] {
-								continue
-							}
-							// leaving the loop from inside: only as an error return
-							isErr := false
-							if r, isRet := terminator(sc).(*ssa.Return); isRet {
-								vals := returnValues(r)
-								isErr = len(vals) > 0 && definitelyNonNilError(vals[len(vals)-1], nil)
-							}
-							if !isErr {
-								earlyExit = true
-							}
-						}
+			allInstrs(h, func(x ssa.Instruction) {
+				ap, isAp := x.(*ssa.Call)
+				if !isAp {
+					return
+				}
+				list, isAp := appendOf(ap)
+				if !isAp {
+					return
+				}
+				p, isP := list.(*ssa.Parameter)
+				if !isP || p.Parent() != h {
+					return
+				}
+				for i, q := range h.Params {
+					if q == p && i < len(hc.Call.Args) && isWanted(hc.Call.Args[i]) {
+						okAdd = true
+						examined(h, ap)
 					}
 				}
-			}
+			})
 		})
 		if okAdd && earlyExit {
 			c.Violation("R16.4", "Diff/every-wanted-column-examined", diff.Pos(), "the loop over the wanted columns can be left before every column was looked at (other than by returning an error): later missing columns are never added")
